@@ -173,6 +173,9 @@ func H_c06s(p []int) {
 	wf, ls := wfls(out)
 	vAssert(wf, "C06/wf")
 	vAssert(ls, "C03/lineSafe")
+	if vProp("C03") {
+		vAssert(linesWF(out), "C03/each-line-wf")
+	}
 	if wf && outerUnsafe {
 		vAssert(bytesEq(delEnv(out), []byte("a  b")), "C06/unsafe-envelopes-all-script")
 	}
